@@ -158,6 +158,16 @@ def run_case(case):
         for m in run.registry.models:
             nf.check(m.type, f"pre-merge:{m.index}")
         state["pre"] = nf
+        # second pass on the not-yet-merged graph: must change nothing (if it does, it is reported; the run continues)
+        from ..monitors import dump_type as _dump
+        try:
+            b = {m.index: repr(_dump(m.type, lambda mm: mm.index)) for m in run.registry.models}
+            for m in list(run.registry.models):
+                run.generator.optimize_type(m)
+            a2 = {m.index: repr(_dump(m.type, lambda mm: mm.index)) for m in run.registry.models}
+            state["pre_changed"] = next(((ix, b[ix], a2.get(ix)) for ix in b if b[ix] != a2.get(ix)), None)
+        except Exception as e:
+            state["pre_raised"] = f"{type(e).__name__}: {e}"
 
     try:
         run = driver.infer(models, opts, pre_merge_hook=pre)
@@ -178,6 +188,11 @@ def run_case(case):
     for stage, x in (("after-generate", state["pre"]), ("after-merge", nf)):
         for kind, where, txt in x.errors[:4]:
             wit.append({"property": PROP, "mechanism": f"{kind}:{stage}", "msg": f"{where}: {txt}"})
+    if state.get("pre_changed"):
+        ix, b0, a0 = state["pre_changed"]
+        wit.append({"property": PROP, "mechanism": "second-pass-changes:after-generate", "msg": f"model {ix}: {b0[:250]} -> {(a0 or '')[:250]}"})
+    if state.get("pre_raised"):
+        wit.append({"property": PROP, "mechanism": "second-pass-raises:after-generate", "msg": state["pre_raised"]})
     # second pass must be a no-op and must not raise
     before = {m.index: repr(dump_type(m.type, lambda mm: mm.index)) for m in run.registry.models}
     try:
